@@ -107,7 +107,10 @@ Slerp8Ok(ev) ==
     /\ LET r == [j \in 1..9 |-> DV(ev.r[j])]
            c == VDot(q0, r[2]) IN
        /\ \A j \in 1..9 : DyNear(VSq(r[j]), Dy1, t)
-       /\ DyLe(VSq(VSub(r[1], q0)), DySq(t)) /\ DyLe(VSq(VSub(r[9], q1)), DySq(t))    \* both end points are reached
+       \* both end points are reached, to a few ulp (sin(theta) / sin(theta) and sin(0)): also between nearly equal rotations, where the
+       \* cosines above cannot tell the start from the end
+       /\ LET te == IF ev.f = 32 THEN DyPow2(-20) ELSE DyPow2(-48) IN
+          DyLe(VSq(VSub(r[1], q0)), DySq(te)) /\ DyLe(VSq(VSub(r[9], q1)), DySq(te))
        /\ DyNear(Ch(ev, 8, c), D, t)
        /\ \A j \in 0..8 : /\ DyNear(VDot(q0, r[j + 1]), Ch(ev, j, c), t)
                           /\ DyNear(VDot(q1, r[j + 1]), Ch(ev, 8 - j, c), t)
